@@ -345,6 +345,10 @@ def status_unit(ctx, unit):
             for k in ENTITY + ['X-Other']:
                 app.response.headers[k] = cur['vals'][k]
             return cur.get('body', '')
+        if mode == 'raised_after_peek':
+            # the application looked at its response first (a log line with repr(response), a debugging header dump) while the status was still 200
+            repr(app.response)
+            list(app.response.headerlist)
         raise HTTPResponse(cur.get('body', ''), cur['status'], dict(cur['vals']))
 
     codes = sorted(c for c in http.client.responses if 100 <= c <= 599)
@@ -385,7 +389,7 @@ def status_unit(ctx, unit):
             short = [k for k in vals if k not in forbidden and names2.count(k) != 2]
             if short:
                 ctx.violation('multi-valued-header-reordered-or-merged', f'{cls.__name__}({code}): {short} not emitted once per value', wit)
-        for mode in ('response', 'raised'):
+        for mode in ('response', 'raised', 'raised_after_peek'):
             cur.update(mode=mode, status=code, vals=vals)
             r = call_app(app, make_environ('GET', '/s'))
             ctx.count('wsgi_emissions')
